@@ -130,8 +130,10 @@ def assigned_object(cls: type, kind: str, fa: dict[str, Any], fb: dict[str, Any]
     try:
         for n in names:
             setattr(a, n, copy.deepcopy(getattr(b, n)))
-        if expose_request(a) != expose_request(b):
-            return None
+        # every public field (plain attributes first, then properties with a setter) was assigned fb's value without
+        # an error: the object is "a request with the parameters fb"; a setter that stores elsewhere shows up as a
+        # layout mismatch
+        expose_request(a)
     except Machinery:
         raise
     except Exception:  # noqa: BLE001
